@@ -20,6 +20,18 @@ func mkfifo(path string, mode uint32) error {
 	return unix.Mkfifo(path, mode)
 }
 
+// openFifoPeer briefly opens the other end of the FIFO at path without blocking,
+// which makes a blocked open of path that is waiting for a peer return.
+func openFifoPeer(path string, forWriting bool) {
+	flag := unix.O_RDONLY
+	if forWriting {
+		flag = unix.O_WRONLY
+	}
+	if fd, err := unix.Open(path, flag|unix.O_NONBLOCK|unix.O_CLOEXEC, 0); err == nil {
+		unix.Close(fd)
+	}
+}
+
 // defaultAccess is similar to checking the permission bits from [io/fs.FileInfo],
 // but it also takes into account the current user's role.
 func defaultAccess(ctx context.Context, path string, mode AccessMode) error {
